@@ -2,7 +2,11 @@
 
 package client
 
-import coreErrs "github.com/apernet/hysteria/core/v2/errors"
+import (
+	"net"
+
+	coreErrs "github.com/apernet/hysteria/core/v2/errors"
+)
 
 // C16 shim: lets the harness wait until a killed connection has been NOTICED by the client
 // (sequential histories compare exactly with the model, so a kill has to be settled before the
@@ -15,12 +19,54 @@ func VerifInner(c Client) Client {
 	if !ok {
 		return nil
 	}
-	return rc.client
+	return verifUnwrap(rc.client)
+}
+
+// verifGated is a transparent Client around the inner client with two hooks in the caller's
+// goroutine: before the inner TCP()/UDP() is entered and after it has returned. It lets the
+// harness PARK one call between clientDo's two lock regions — the only way to make "an error from
+// an already replaced client is processed late" a deterministic schedule instead of a race.
+// clientDo / reconnect / Close run unchanged; rc.client simply holds this value.
+type verifGated struct {
+	Client
+	before func(kind byte)
+	after  func(kind byte, err error)
+}
+
+func (g *verifGated) TCP(addr string) (net.Conn, error) {
+	g.before('T')
+	c, err := g.Client.TCP(addr)
+	g.after('T', err)
+	return c, err
+}
+
+func (g *verifGated) UDP() (HyUDPConn, error) {
+	g.before('U')
+	c, err := g.Client.UDP()
+	g.after('U', err)
+	return c, err
+}
+
+func verifUnwrap(c Client) Client {
+	if g, ok := c.(*verifGated); ok {
+		return g.Client
+	}
+	return c
+}
+
+// VerifGate wraps the CURRENT inner client of rc. Call it only from connectedFunc (which runs
+// under rc.m right after `rc.client, info, err = NewClient(config)`).
+func VerifGate(c Client, before func(kind byte), after func(kind byte, err error)) {
+	rc, ok := c.(*reconnectableClientImpl)
+	if !ok || rc.client == nil {
+		return
+	}
+	rc.client = &verifGated{Client: rc.client, before: before, after: after}
 }
 
 // VerifConnDone is closed once the inner client's QUIC connection is gone.
 func VerifConnDone(c Client) <-chan struct{} {
-	ci, ok := c.(*clientImpl)
+	ci, ok := verifUnwrap(c).(*clientImpl)
 	if !ok || ci.conn == nil {
 		ch := make(chan struct{})
 		close(ch)
@@ -32,7 +78,7 @@ func VerifConnDone(c Client) <-chan struct{} {
 // VerifUDPClosed reports whether the inner client's UDP session manager has run its
 // closeCleanup (after which UDP() answers ClosedError).
 func VerifUDPClosed(c Client) bool {
-	ci, ok := c.(*clientImpl)
+	ci, ok := verifUnwrap(c).(*clientImpl)
 	if !ok || ci.udpSM == nil {
 		return true
 	}
